@@ -72,7 +72,10 @@ def replay(chk, behs, equal_mags, rng):
     dims = UA.dims()
     for bi, b in enumerate(behs):
         dimA, dimB = PAIRS[bi % len(PAIRS)]
-        ua, ub = dims[dimA], dims[dimB]
+        # a different (seeded) choice of the dimension's units for every behaviour: every unit gets its turn
+        ua, ub = dims[dimA][:], dims[dimB][:]
+        random.Random(bi * 7919 + 1).shuffle(ua)
+        random.Random(bi * 104729 + 2).shuffle(ub)
         umap = {"a1": ua[0], "a2": ua[1 % len(ua)], "a3": ua[2 % len(ua)], "b1": ub[0], "b2": ub[1 % len(ub)]}
         real = {k: UA.unit_enum(v) for k, v in umap.items()}
         core.reset_world()
@@ -85,8 +88,12 @@ def replay(chk, behs, equal_mags, rng):
         # q2 is built in q1's unit (equal: bit-identical magnitude; different: 1.4 x, i.e. MagA1 < MagA2 as in the spec)
         # and then displayed in its own initial unit
         q = {"q1": real[b["d0"]["q1"]](x1), "q2": real[b["d0"]["q1"]](x2), "q3": real[b["d0"]["q3"]](x1)}
+        raw0 = {k: v.raw_value for k, v in q.items()}          # magnitudes at construction time
         q["q2"].convert(real[b["d0"]["q2"]])
-        raw0 = {k: v.raw_value for k, v in q.items()}
+        if q["q2"].raw_value != raw0["q2"]:
+            chk.violation("C13.MagnitudeChanged", {"dimA": dimA, "dimB": dimB, "op": "Convert", "dim": dimA, "object": "q2"},
+                          {"behaviour": b, "step": -1, "raw": q["q2"].raw_value, "raw0": raw0["q2"], "units": umap})
+            continue
         dimof = {"q1": dimA, "q2": dimA, "q3": dimB}
         first_val, first_hash = {}, {}
         key0 = {"dimA": dimA, "dimB": dimB}
